@@ -283,6 +283,34 @@ theorem C04_manager_witness_types (v st e best : Nat) :
 example : renewWitnessType 0 = .multiSigWitness ∧ renewWitnessType 2 = .muSig2Taproot ∧
     managerWitnessType "WithdrawAccount" 1 3 100 100 = some .expiryTaproot := by decide
 
+/-! ## the record a batch leaves behind commits to the output the trader verified and signed -/
+
+/-- **The stored record after a batch describes the re-created output** (regenerated: the statements of every
+`account.Modifier`, the modifiers `batchStorer.StorePendingBatch` stages and their conditions, the in-place
+updates of `batchVerifier.Verify` and their conditions).  For every account, every diff (new expiry below,
+equal to or above the current one; any new version) and every combination of batch-version capabilities, the
+record the storer stages has exactly the value, expiry, version and batch key of the output whose script the
+verifier checked with `NextOutputScript` – so every witness Pool later builds from the stored record is for
+the script that is on chain.  A modifier that does anything but assign its argument (e.g. a "monotonic"
+`ExpiryModifier`) or a storer condition that differs from the verifier's breaks this proof. -/
+theorem C04_stored_record_is_verified_output (d : DiffIn) (a : AcctRec) :
+    storedAfterBatch d a = verifiedOutputParams d a ∧
+    verifiedOutputParams d a = some
+      { value := d.endingBalance
+        expiry := if d.supportsExt && d.newExpiry != 0 then d.newExpiry else a.expiry
+        version := if d.supportsUpg && decide (d.newVersion > a.version) then d.newVersion else a.version
+        batchInc := a.batchInc + 1 } := by
+  cases he : (d.supportsExt && d.newExpiry != 0) <;> cases hu : (d.supportsUpg && decide (d.newVersion > a.version)) <;>
+    simp [storedAfterBatch, storedAfterBatchWith, Gen.C04.storerModifiers, recreatedCase, diffCondHolds,
+      applyModifier, Gen.C04.modifierBodies, applyStmts, applyModifierStmt, diffArg, verifiedOutputParams,
+      verifiedWith, Gen.C04.verifierAccountUpdates, he, hu]
+
+/-- non-vacuity: an expiry *lowered* by the auctioneer and a version upgrade are both persisted -/
+example : storedAfterBatch ⟨true, true, 900, 400, 2⟩ ⟨1000, 500, 1, 7⟩ = some ⟨900, 400, 2, 8⟩ ∧
+    storedAfterBatch ⟨false, false, 900, 400, 2⟩ ⟨1000, 500, 1, 7⟩ = some ⟨900, 500, 1, 8⟩ := by
+  constructor <;>
+    rw [(C04_stored_record_is_verified_output _ _).1, (C04_stored_record_is_verified_output _ _).2] <;> simp
+
 /-! ## classification by the spend handler -/
 
 /-- **C04, classification.**  Every witness Pool builds is classified by `manager.HandleAccountSpend`'s switch
